@@ -96,40 +96,26 @@ func (t *TFile) trackWrite(offset int64, length int64) {
 
 	fn := func(k []byte, v interface{}) bool {
 		isStart := v.(bool)
-		isEnd := !isStart
 		key := getOffset(k)
 
-		deleteKey := func() {
-			if key <= end {
-				txn.Delete(k)
-			}
-		}
 		switch {
-		case isStart && (key == start):
-			insertStart = false
+		case key < start:
+			// The write begins inside (or right at the end of) a range opened before it
+			// iff the closest marker before start is a start marker.
+			insertStart = !isStart
 			return !terminate
-		case isStart && (key < start):
-			// Only interim keys need deleting
-			return !terminate
-		case isStart && (key > start):
-			deleteKey()
-			return !terminate
-		case isEnd && (key < start):
-			// Previous end hit and can be ignored, process next key
-			return !terminate
-		case isEnd && (key > start):
-			// There is an end that is after start and no other key in the range.
-			// Skip inserting start, previous start will cover the range.
-			insertStart = false
-			// This key might need deleting and process other keys
-			if key >= end {
-				insertEnd = false
-				return terminate
+		case key <= end:
+			// Every marker within [start, end] is superseded by the new range.
+			// An end marker at start means the previous range is extended.
+			if key == start && !isStart {
+				insertStart = false
 			}
-			deleteKey()
+			txn.Delete(k)
 			return !terminate
 		default:
-			return !terminate
+			// First marker after end: the write ends inside a range iff it is an end marker.
+			insertEnd = isStart
+			return terminate
 		}
 	}
 
